@@ -28,7 +28,7 @@ ASSUMPTIONS = ["a sub-daily reading covers its nominal interval (15/30/60 min), 
                "billing reads are monthly when the median period is <= 35 days, else bi-monthly"]
 REQUIRED_REACH = {"dataset.judged": 40, "billing.periods_judged": 100, "billing.offcycle_periods": 5, "subdaily.days_judged": 1000, "subdaily.full_days": 800,
                   "subdaily.partial_days_over_half": 10, "subdaily.days_half_or_less": 10, "subdaily.dst_days": 5, "post.as_freq_cumulative": 30,
-                  "post.clean_billing_data": 10, "subdaily.series_starting_midday": 6, "billing.gas_zero_reads": 1, "subdaily.gas_all_zero_days": 3}
+                  "post.clean_billing_data": 10, "subdaily.series_starting_midday": 6, "billing.gas_zero_reads": 1, "subdaily.gas_all_zero_days": 3, "billing.net_metered_credit_bills": 3, "subdaily.net_metered_negative_readings": 2000}
 
 VIOL = []
 
@@ -102,6 +102,11 @@ def billing_case(spec, rng, keys):
     didx = daily_index(tz, start, days + 1)
     starts = np.concatenate([[0], np.cumsum(steps)])
     vals = rng.integers(200, 3000, nper).astype(float)
+    if spec.get("net_metered"):
+        # electricity meter with on-site generation: credit bills (negative usage is usage, not a missing read)
+        for j in rng.choice(nper, size=min(nper, 3), replace=False):
+            vals[j] = -float(rng.integers(20, 900))
+        I.reach("billing.net_metered_credit_bills")
     gas = bool(spec.get("gas"))                                   # non-electric meter: a zero read is real usage (a summer gas bill), not a missing read
     if spec.get("zero_read"):
         vals[int(rng.integers(0, nper))] = 0.0
@@ -215,6 +220,11 @@ def subdaily_case(spec, rng, keys):
     else:
         idx = pd.date_range(t0.tz_convert("UTC"), t1.tz_convert("UTC"), freq="%dmin" % minutes, inclusive="left").tz_convert(tz)
     v = rng.integers(1, 60, len(idx)).astype(float)
+    if spec.get("net_metered"):
+        # electricity meter with on-site generation: export intervals read negative (never exactly zero here: zero is a missing read)
+        v = v - 25.0
+        v[v == 0] = -1.0
+        I.reach("subdaily.net_metered_negative_readings", int((v < 0).sum()))
     mask = np.zeros(len(idx), bool)                          # True = reading missing
     day_id = np.searchsorted(ns(d0), ns(idx), side="right") - 1
     pat = spec["pattern"]
@@ -374,6 +384,9 @@ def gen_cases(tier, seed):
                           n_periods=int(rng.integers(8, 15)) if i % 3 else int(rng.integers(6, 9)), entry="series" if i % 4 else "frame",
                           role="baseline" if i % 5 else "reporting", zero_read=bool(i % 11 == 10 or i % 7 == 3), gas=bool(i % 7 == 3), n=k))
         k += 1
+    for c_ in cases:
+        if c_["n"] % 6 == 4 and not c_.get("gas") and not c_.get("zero_read"):
+            c_["net_metered"] = True
     pats = ["none", "isolated", "runs", "over_half", "exactly_half", "under_half", "whole_days", "zeros"]
     for i in range(48 if q else 1000):
         minutes = [60, 15, 30, 60, 1440, 30][i % 6]
@@ -382,6 +395,8 @@ def gen_cases(tier, seed):
                           gap_kind="nan" if i % 2 else "absent", entry="series" if i % 3 else "frame", start=start, days=int(rng.choice([20, 35, 50])), n=k))
         if cases[-1]["pattern"] in ("zeros", "none") and i % 5 < 3:
             cases[-1]["gas"] = True
+        elif i % 4 == 1:
+            cases[-1]["net_metered"] = True
         k += 1
     for i in range(12 if q else 150):
         minutes = [60, 15, 30][i % 3]
